@@ -711,9 +711,9 @@ Section Core.
     - apply andb_true_iff in Hi. destruct Hi as [Hu Hia].
       destruct (eval QcN tbl res keys a) as [x|] eqn:Ea; [|discriminate]. cbn [bind].
       destruct (IHa Hia x eq_refl) as (Va & Ia & Da).
-      intros H. destruct (convert_to_sound _ _ _ Ia Hu H) as (U & _ & _ & V & _).
-      repeat split.
-      + unfold DenQ. rewrite U, V. exact Va.
+      intros H. destruct (vm_convert_sound x (from_unit QcN u) q Ia Hu H) as (U & _ & V & _).
+      simpl in U. repeat split.
+      + rewrite V. exact Va.
       + rewrite U. exact Hu.
       + intros _ z. rewrite U. reflexivity.
   Qed.
